@@ -796,11 +796,12 @@ def compare_schemas(write: Any, read: Any) -> Any:
             raise ValueError
         # keep the JsonSchema class, as the version conversion applies to its instances
         merged: Dict[str, Any] = JsonSchema() if isinstance(write, JsonSchema) else {}
-        for key in write.keys() | read.keys():
+        # keep the order of the keys (properties are ordered), write ones first
+        for key in [*write, *(k for k in read if k not in write)]:
             if key in write and key in read:
                 if key == "properties":
                     merged[key] = {}
-                    for prop in write[key].keys() | read[key].keys():
+                    for prop in [*write[key], *(p for p in read[key] if p not in write[key])]:
                         if prop in write[key] and prop in read[key]:
                             merged[key][prop] = compare_schemas(
                                 write[key][prop], read[key][prop]
